@@ -34,7 +34,8 @@ def make_case(rng, n_items, n_workers, combo, schedule, gen=False, cms_kind=None
     keys = key_family(rng, 6, 0, 8)
     items = P.gen_items(rng, n_items, keys)
     return {"type": "inproc", "items": items, "n_workers": n_workers, "combo": list(combo), "args": P.gen_args(rng, combo, cms_kind),
-            "schedule": {str(k): v for k, v in schedule.items()}, "as_generator": gen, "item_kind": pick(rng, P.ITEM_KINDS)}
+            "schedule": {str(k): v for k, v in schedule.items()}, "as_generator": gen, "item_kind": pick(rng, P.ITEM_KINDS),
+            "cores": pick(rng, [None, None, 1, 2, 3, 4, 64])}
 
 
 def run_inproc_case(case, ctx, mon):
@@ -42,7 +43,8 @@ def run_inproc_case(case, ctx, mon):
     sched = {int(k): v for k, v in case["schedule"].items()}
     det = dict(n_workers=case["n_workers"], combo=list(combo), schedule=case["schedule"], generator=case["as_generator"])
     outcome, res, fctx = P.run_inproc(case["items"], sched, case["n_workers"], case["args"], as_generator=case["as_generator"],
-                                      kind=case.get("item_kind", "dict"))
+                                      kind=case.get("item_kind", "dict"), cores=case.get("cores"))
+    mon.seen("reported_cores", case.get("cores") or "host")
     if outcome == "hang":
         mon.check(False, "parallel_add-terminates", why=str(res), **det)
     if outcome == "raised":
@@ -210,6 +212,7 @@ def floors(mon, ctx):
         mon.floor("exhaustive schedules 4 items x 3 workers", mon.counters["exhaustive_schedules:4x3"], 360)
     mon.floor("sketch combinations", len(mon.classes["combo"]), 7)
     mon.floor("worker counts", len(mon.classes["n_workers"]), 9)
+    mon.floor("core counts reported to the library (host, 1, 2, 3, 4, 64)", len(mon.classes["reported_cores"]), 5)
     mon.floor("runs with 10..40 workers", len([x for x in mon.classes["n_workers"] if x >= 10]), 5)
     mon.floor("runs with an odd worker count", mon.counters["runs_with_odd_worker_count"], 10)
     mon.floor("runs with generator items", mon.counters["runs_with_generator_items"], 10)
